@@ -52,7 +52,19 @@ def g_score(draw):
             "model_form": gen.choice(draw, ["machines", "stack", "list", "single2d"]),
             "stats_form": gen.choice(draw, ["list", "single"]),
             "normalise": gen.boolean(draw), "ubm_as_map": gen.choice(draw, [False, True, "ml_with_seed", False]),
-            "stats_layout": gen.choice(draw, ["C", "C", "F", "strided"])}
+            "stats_layout": gen.choice(draw, ["C", "C", "F", "strided"]),
+            # statistics whose arrays are still lazy (what acc_stats returns for a Dask array), possibly mixed with
+            # in-memory ones in one list
+            "lazy": [gen.choice(draw, [False, False, True]) for _ in range(T)] if gen.choice(draw, [False, True]) else [False] * T}
+
+
+def _lazy(s):
+    import dask.array as da
+
+    s.n = da.from_array(np.ascontiguousarray(s.n), chunks=-1)
+    s.sum_px = da.from_array(np.ascontiguousarray(s.sum_px), chunks=(1, -1))
+    s.sum_pxx = da.from_array(np.ascontiguousarray(s.sum_pxx), chunks=-1)
+    return s
 
 
 def call(case, ubm_machine, models=None, stats=None, offsets="case", normalise=None):
@@ -76,6 +88,9 @@ def call(case, ubm_machine, models=None, stats=None, offsets="case", normalise=N
     else:
         marg = np.array(models[0])
     sobj = [sut.make_stats(s, layout=case.get("stats_layout", "C")) for s in stats]
+    lazy = case.get("lazy") or []
+    if stats is case["stats"] or len(stats) == len(lazy):
+        sobj = [_lazy(s) if (i < len(lazy) and lazy[i]) else s for i, s in enumerate(sobj)]
     sarg = sobj[0] if (case["stats_form"] == "single" and len(sobj) == 1) else sobj
     off = case["offsets"] if isinstance(offsets, str) else offsets
     kw = {}
@@ -118,7 +133,8 @@ def c_formula(ctx, case):
              "models:" + case["model_form"], "stats:" + case["stats_form"],
              "offsets:" + ("none" if case["offsets"] is None else ("stack" if np.ndim(case["offsets"]) == 3 else "one")),
              "normalised" if case["normalise"] else "raw", "ubm:%s" % (case["ubm_as_map"] if isinstance(case["ubm_as_map"], str) else ("map" if case["ubm_as_map"] else "prior")),
-             "zero-frame" if 0 in ts else None, "C!=F" if C != F else "C==F")
+             "zero-frame" if 0 in ts else None, "C!=F" if C != F else "C==F",
+             ("lazy-stats:mixed" if not all(case["lazy"]) else "lazy-stats:all") if any(case.get("lazy") or []) else None)
     ctx.check(got.shape == want.shape, "score shape %s, expected (n_models, n_tests) = %s" % (got.shape, want.shape), "shape")
     # scale for the absolute tolerance: sum of |terms|
     mag = 0.0
